@@ -23,6 +23,7 @@ def parseOp (w : String) : Option Op :=
   | ["nr", n] => n.toNat?.map Op.setNR
   | ["rec", v] => some (.setRec v)
   | ["gl"] => some .getline
+  | ["gd"] => some .getDash
   | ["m", n] => n.toNat?.map Op.matchOp
   | ["rx", k] => some (.rx k)
   | ["sr", n] => n.toNat?.map Op.srand
